@@ -11,7 +11,12 @@ OBLIGATIONS = [
     "KafVerif.C10.parseHeader_body_suffix",
     "KafVerif.C10.parseHeaderOld_panics",
     "KafVerif.C10.killerFrame_rejected",
+    "KafVerif.C10.parseHeader_encode_tags",
     "KafVerif.C10.parseHeader_encode",
+    "KafVerif.C10.parseHeader_consumes_exactly_header",
+    "KafVerif.C10.uvarint_roundtrip",
+    "KafVerif.C10.skipTagged_exact",
+    "KafVerif.C10.skipTagged_within_buffer",
     "KafVerif.C10.readFrame_total",
     "KafVerif.C10.readFrame_exact",
     "KafVerif.C10.readFrame_writeFrame",
@@ -33,8 +38,9 @@ LEVEL_TEXT = ("Lean theorems over the model of byteReader/SkipTaggedFields/Parse
               "body, frame round trip; tied to the code by a differential run (real parser vs model) incl. an "
               "exhaustive short-suffix enumeration, and a kmsg encode->ParseRequest->re-encode round trip over every "
               "kmsg request key x version.")
-LEVEL_NOTE = ("parseHeader_encode covers the empty tagged-field section that standard clients write; non-empty tag "
-              "sections are covered by totality + the differential run only.  The body codec is kmsg (parameter).")
+LEVEL_NOTE = ("The header round trip (parseHeader_encode_tags) holds for every well-formed tagged-field section (count/tags < 2^64, "
+              "field sizes < 2^63), with uvarint_roundtrip and skipTagged_exact as its lemmas; the model's encoder is compared with "
+              "Go's encoding/binary on every run (`enc` ops).  The body codec is kmsg (parameter).")
 TECHNIQUE = "Lean 4 proof over an executable model + differential correspondence + direct monitor"
 ASSUMPTIONS = [
     "Go int is 64 bit (int(uint64) wraps at 2^63)",
@@ -81,6 +87,98 @@ def gen_tagged(rng):
     if rng.chance(1, 6) and out:
         out = out[: rng.below(len(out))]
     return bytes(out)
+
+
+def ref_uvarint(b, pos):
+    """binary.Uvarint as specified: (value, next position) or None (truncated / more than 10 bytes / 10th byte > 1)."""
+    x, s = 0, 0
+    for i in range(10):
+        if pos + i >= len(b):
+            return None
+        c = b[pos + i]
+        if c < 0x80:
+            if i == 9 and c > 1:
+                return None
+            return x | (c << s), pos + i + 1
+        x |= (c & 0x7F) << s
+        s += 7
+    return None
+
+
+def ref_skip_tagged(b, pos):
+    """KIP-482 tagged-field section read by the format: next position or None."""
+    r = ref_uvarint(b, pos)
+    if r is None:
+        return None
+    count, pos = r
+    for _ in range(count):
+        r = ref_uvarint(b, pos)
+        if r is None:
+            return None
+        r = ref_uvarint(b, r[1])
+        if r is None:
+            return None
+        size, pos = r
+        if size > len(b) - pos:
+            return None
+        pos += size
+    return pos
+
+
+def ref_header(b, flex):
+    """Request header v1/v2 read by the Kafka protocol guide, independent of the model and of the code: the `hdr` result line."""
+    if len(b) < 8:
+        return "err"
+    key, ver, corr = struct.unpack(">hhi", b[:8])
+    if len(b) < 10:
+        return "err"
+    n = struct.unpack(">h", b[8:10])[0]
+    pos = 10
+    if n == -1:
+        cid = "null"
+    elif n < 0 or len(b) - pos < n:
+        return "err"
+    else:
+        cid = lib.hexs(b[pos:pos + n])
+        pos += n
+    if key in flex and ver >= flex[key]:
+        pos = ref_skip_tagged(b, pos)
+        if pos is None:
+            return "err"
+    return "ok %d %d %d cid=%s body=%s" % (key, ver, corr, cid, lib.hexs(b[pos:]))
+
+
+TAG_VALUES = [0, 1, 2, 127, 128, 16383, 16384, 2 ** 32, 2 ** 63, 2 ** 64 - 1]
+TAG_SIZES = [0, 0, 1, 1, 2, 5, 127, 128, 129, 300]
+
+
+def gen_wf_tagged(rng, flex):
+    """A WELL-FORMED flexible request header with a NON-EMPTY tagged-field section (what parseHeader_encode_tags is about),
+    followed by a body: (enc op, header bytes as python encodes them, section bytes, body)."""
+    keys = sorted(k for k, v in flex.items() if v < 32767)
+    key = rng.choice(keys)
+    ver = flex[key] + rng.choice([0, 0, 0, 1, 2, -1])       # -1: not flexible -> no section is written
+    corr = rng.choice([0, 1, -1, 2 ** 31 - 1, -2 ** 31, rng.below(2 ** 31)])
+    cid = rng.choice([None, b"", b"c", rng.bytes(rng.below(9)), b"x" * rng.choice([127, 128, 300])])
+    n = rng.choice([1, 1, 1, 2, 2, 3, 5, 127, 128, 130]) if rng.chance(19, 20) else 0
+    big = rng.chance(1, 40)
+    tags = []
+    for _ in range(n):
+        size = rng.choice(TAG_SIZES) if n < 100 else rng.choice([0, 1, 2])
+        if big:
+            size = rng.choice([16383, 16384, 70000])
+            big = False
+        tags.append((rng.choice(TAG_VALUES), rng.bytes(size)))
+    section = uvarint(len(tags)) + b"".join(uvarint(t) + uvarint(len(d)) + d for t, d in tags)
+    flexible = ver >= flex[key]
+    hdr = struct.pack(">hhi", key, ver, corr) + (b"\xff\xff" if cid is None else struct.pack(">h", len(cid)) + cid)
+    if flexible:
+        hdr += section
+    # bodies that look like more header: a tag section, zeros, varint continuation bytes
+    body = rng.choice([b"", b"\x00", b"\x01\x00\x00", b"\x80", b"\xff" * 3, rng.bytes(rng.below(12)), section[:20]])
+    op = "enc %d %d %d %s %s" % (key, ver, corr, "null" if cid is None else lib.hexs(cid),
+                                 ",".join("%d:%s" % (t, lib.hexs(d)) for t, d in tags) or "-")
+    return op, hdr, section, body, (key, ver, corr, cid)
 
 
 def gen_header(rng, flex):
@@ -151,9 +249,33 @@ def mutate(rng, b):
     return bytes(b)
 
 
+FLEX = {}     # kmsg's flexibility table, taken from the `flex` op every op file starts with (replays carry it too)
+ENC = {}      # enc op -> header bytes the generator wrote into the following hdr op
+
+
 def monitor_line(op, out):
     """The property on one implementation line: (fingerprint, what) or None."""
     f = op.split()
+    if f[0] == "flex":
+        FLEX.clear()
+        FLEX.update({int(a.split(":")[0]): int(a.split(":")[1]) for a in f[1:]})
+        return None
+    if f[0] == "hdr" and FLEX and "panic" not in out.split():
+        raw = bytes.fromhex(f[1]) if f[1] != "-" else b""
+        want = ref_header(raw, FLEX)
+        if out != want:
+            if want.startswith("ok"):
+                return ("wellformed-header-not-parsed-back",
+                        "a request header that is well formed by the Kafka protocol (incl. its tagged-field section) did not parse back to its "
+                        "fields and exactly the bytes after it: expected %s" % want[:200])
+            return "header-parse-differs-from-format", "ParseRequestHeader accepted bytes the header format rejects (expected err)"
+    if f[0] == "skip" and "panic" not in out.split():
+        raw = bytes.fromhex(f[1]) if f[1] != "-" else b""
+        pos = ref_skip_tagged(raw, 0)
+        want = "err" if pos is None else "ok %d" % pos
+        if out != want:
+            return ("tagged-section-not-consumed-exactly",
+                    "SkipTaggedFields did not consume exactly the tagged-field section (expected %s)" % want)
     if "panic" in out.split():
         return "decoder-panic", "%s of client bytes panicked" % {"hdr": "ParseRequestHeader", "skip": "SkipTaggedFields", "frame": "ReadFrame", "rt": "ParseRequest"}.get(f[0], f[0])
     if f[0] == "rt" and out != "rt ok":
@@ -263,12 +385,22 @@ def build_ops(ck, binary):
         ops.append("frame " + lib.hexs(gen_frame(ck.rng)))
     for _ in range(n // 4):
         ops.append(gen_stream(ck.rng)[0])
+    # (e) well-formed headers with NON-EMPTY tagged-field sections + a body: the encoder of parseHeader_encode_tags (model) against
+    #     Go's encoding/binary (`enc`), the parse of header ++ body, and SkipTaggedFields on section ++ trailing bytes
+    ENC.clear()
+    for _ in range(n // 5):
+        op, hdr, section, body, _ = gen_wf_tagged(ck.rng, flex)
+        ENC[op] = hdr
+        ops.append(op)
+        ops.append("hdr " + lib.hexs(hdr + body))
+        ops.append("skip " + lib.hexs(section + body))
+    ck.count("wellformed_tagged_header_cases", n // 5)
     return ops
 
 
 def nontrivial(op, out):
     f = op.split()
-    if f[0] == "rt":
+    if f[0] in ("rt", "enc"):
         return True
     if f[0] == "hdr":
         return out.startswith("ok") or len(f[1]) > 24  # got past the fixed-size fields
@@ -284,6 +416,10 @@ def check_stream(ck, binary, ops, tag):
         ck.count(op.split()[0] + ":" + o.split()[0] + ("" if o.split()[0] != "rt" else "-" + o.split()[1]))
         ck.case(op, nontrivial=nontrivial(op, o), sample={"op": op[:100], "impl": o[:100]} if op.startswith("rt") or o.startswith("ok") else None)
         m = monitor_line(op, o)
+        if op in ENC and o != "enc " + lib.hexs(ENC[op]) and bad is None:
+            ck.broke("generator encoding of a header with tagged fields = encoding/binary's (harness `enc`)",
+                     "op %r\nharness  : %s\ngenerator: enc %s" % (op[:300], o[:300], lib.hexs(ENC[op])[:300]))
+            return False
         if m and bad is None:
             bad = (op, o, m)
             ck.violation(m[0], m[1], {"ops": [ops[0], op], "expected": "value or error, identical round trip", "actual": o[:300]})
@@ -352,13 +488,14 @@ def run(ck):
         return
     ck.cov["rule"] = ("ops = hdr/skip/frame/rt lines; exhaustive: every 1- and 2-byte (and selected 3-byte) suffix after a flexible "
                       "header prefix; generated: headers with boundary keys/versions/client-id lengths and tagged sections with "
-                      "boundary/lying sizes and over-long varints, frames with lying lengths, every kmsg request key x version "
+                      "boundary/lying sizes and over-long varints, well-formed headers with non-empty tagged sections (1..130 fields, tag/size "
+                      "boundaries 0/127/128/16383/16384/2^63/2^64-1) + body, frames with lying lengths, every kmsg request key x version "
                       "encoded by kmsg's RequestFormatter plus mutations.  Non-trivial = parsed ok, or long enough to get past "
                       "the fixed-size fields; distinct = distinct op lines")
     ops = build_ops(ck, bins["h"])
     ck.cov["exhaustive"] = True
-    ck.partial = ("parseHeader_encode is proved for the empty tagged-field section standard clients write; headers with non-empty "
-                  "tag sections are covered by parseHeader_total/body_suffix and the differential run; request bodies are kmsg's codec")
+    ck.partial = ("the header/frame theorems are complete (round trip for every well-formed tagged-field section); the request BODY "
+                  "codec is kmsg's (a parameter of the proof: exercised for every key x version, not modelled)")
     ok = check_stream(ck, bins["h"], ops, "main")
     run_conc(ck, bins)
     if not ok and not ck.violations:
